@@ -65,7 +65,7 @@ def judge(acc, f, r, o, s, b, us, route, carrier, int_params, part):
         if route == 'ctor':
             x = Fxp(arr, **kw)
         else:
-            x = Fxp(np.zeros(len(vs)), **kw)
+            x = Fxp(np.full(len(vs), float(b)), **kw)          # initial value b = unscaled 0: exact, raises no flag
             if route == 'call':
                 x(arr)
             elif route == 'set_val':
@@ -107,6 +107,24 @@ def judge(acc, f, r, o, s, b, us, route, carrier, int_params, part):
         if gl != wl:
             acc.violation('limits', case, '%s: upper/lower/precision %s, expected %s' % (sig, [str(v) for v in gl], [str(v) for v in wl]),
                           {'part': part, 'aspect': 'limits'})
+    # history: re-write the same codes raw, read back again, re-derive the limits by a same-format resize
+    if route == 'ctor' and carrier == 'farr':
+        try:
+            x.set_val(np.array(expc, dtype=np.int64), raw=True)
+            gv2 = np.asarray(x.get_val(), dtype=np.float64).tolist()
+            x.resize(f.signed, f.n_word, f.n_frac)
+            lim2 = (x.upper, x.lower, x.precision)
+            acc.transitions += 3
+        except Exception as e:
+            acc.violation('exception', case, '%s: raw re-write / resize raised %r' % (sig, e), {'part': part, 'route': 'raw_rewrite'})
+            return
+        if codes(x) != expc or [Fraction(v) for v in gv2] != [Fraction(v) for v in gv]:
+            acc.violation('readback', case, '%s: after writing the same codes raw the object reads %s..., before %s...' % (sig, gv2[:4], gv[:4]),
+                          {'part': part, 'route': 'raw_rewrite'})
+        elif all(exact_f(w) for w in wl) and tuple(Fraction(v) for v in lim2) != wl:
+            acc.violation('limits', case, '%s: after raw write + resize upper/lower/precision are %s, expected %s'
+                          % (sig, [str(v) for v in lim2], [str(v) for v in wl]), {'part': part, 'aspect': 'limits_after_raw'})
+        acc.outcome('raw_rewrite_checked')
     acc.states.add((f, s, b))
     acc.sample(dict(case, us=case['us'][:3]), 1)
 
@@ -204,6 +222,11 @@ def run_shard(sh):
                     for route in ('call', 'set_val', 'setitem'):
                         judge(acc, f, 'floor', 'wrap', s, b, us, route, 'farr', False, 'B')
                     judge(acc, f, 'ceil', 'saturate', s, b, us, 'ctor', 'iarr', True, 'B')
+                    # single-element stores: the flags of one large-magnitude element must not be masked by the rest of an array
+                    for k1 in (4 * f.hi - 2, 4 * f.hi - 1, 4 * f.hi, 4 * (f.hi // 2) + 2, 4 * f.lo + 2, 4 * f.lo + 1, 4 * f.lo):
+                        for (r, o) in (('trunc', 'saturate'), ('around', 'wrap'), ('ceil', 'saturate')):
+                            judge(acc, f, r, o, s, b, [qval(k1, f)], 'ctor', 'farr', False, 'B1')
+                            judge(acc, f, r, o, s, b, [qval(k1, f)], 'set_val', 'farr', True, 'B1')
     else:
         for fbits in range(0, 4):
             for k in range(-40, 41):
